@@ -75,6 +75,22 @@ fn one(ctx: &Ctx, rep: &mut Report, id: usize, cfg: Cfg, k: usize) {
             let mut prng = FaultRng::new(RngKind::Healthy(rng.next_u64()));
             rep.eval(&(GROUP, "prove", case.key(), j, nm.clone()));
             rep.count("prover_promise_cases", 1);
+            // the convenience entry point (operating system's generator) must take the same decision
+            if (id + j) % 2 == 0 {
+                rep.count("prover_promise_cases_os_rng", 1);
+                match no_panic(|| RangeProof::prove(&mut case.transcript(), &st, &case.witness())) {
+                    Err(pn) => rep.violation(&format!("C07 prove-panic [{nm}]"), &format!("RangeProof::prove panicked with promise[{j}] = {nm}: {pn}"), replay(&nm)),
+                    Ok(r) => {
+                        if r.is_ok() != expect_ok {
+                            rep.violation(
+                                &format!("C07 prover-promise [{nm}] ok={}", r.is_ok()),
+                                &format!("RangeProof::prove (operating system's generator) with value {} and promise[{j}] = {nm} ({p:?}) returned {} (expected {})", values[j], if r.is_ok() { "a proof" } else { "an error" }, if expect_ok { "a proof" } else { "an error" }),
+                                replay(&nm),
+                            );
+                        }
+                    },
+                }
+            }
             match no_panic(|| RangeProof::prove_with_rng(&mut case.transcript(), &st, &case.witness(), &mut prng)) {
                 Err(pn) => rep.violation(&format!("C07 prove-panic [{nm}]"), &format!("prover panicked with promise[{j}] = {nm}: {pn}"), replay(&nm)),
                 Ok(r) => {
